@@ -433,3 +433,30 @@ func NonNilGuard(b *ssa.BasicBlock, path string) bool {
 	}
 	return false
 }
+
+// DisjunctGuards handles `if a || b || c { B }`: when every predecessor of b
+// ends in an If that jumps to b, it returns the rendered condition under which
+// each predecessor enters b (negated for false edges); nil otherwise.
+func DisjunctGuards(b *ssa.BasicBlock) []string {
+	if len(b.Preds) < 2 {
+		return nil
+	}
+	var out []string
+	for _, p := range b.Preds {
+		if len(p.Instrs) == 0 {
+			return nil
+		}
+		iff, ok := p.Instrs[len(p.Instrs)-1].(*ssa.If)
+		if !ok {
+			return nil
+		}
+		s := Expr(iff.Cond)
+		if p.Succs[0] == b {
+			out = append(out, s)
+		} else {
+			out = append(out, negate(s))
+		}
+	}
+	sort.Strings(out)
+	return out
+}
